@@ -180,13 +180,12 @@ Definition same_but_adjustment (t : list Z) (d d' : list Z) : Prop :=
 Theorem written_file_reads_back version n ts file :
   version_ok version ->
   Forall (fun td => length (fst td) = 4%nat) ts ->
-  (forall dh, In (head_tag, dh) ts -> (12 <= length dh)%nat) ->
   write_sfnt version n ts = Ok file ->
   exists dir, open_sfnt file 0 = Ok (version, dir) /\ length dir = length ts /\
     forall t d, In (t, d) ts ->
       exists e d', In e dir /\ d_tag e = t /\ load_table file e = Ok d' /\ same_but_adjustment t d d'.
 Proof.
-  intros HV HT HH HW. unfold write_sfnt in HW.
+  intros HV HT HW. unfold write_sfnt in HW.
   destruct (u16_ok n) eqn:En; cbn [negb] in HW; [|discriminate].
   destruct (has_dup [] ts) eqn:Edup; [discriminate|].
   destruct (Z.eqb_spec (Z.of_nat (length ts)) n) as [Hlen|]; cbn [negb] in HW; [|discriminate].
@@ -234,14 +233,28 @@ Proof.
   assert (Hin : forall e, In e es -> In (to_dirent e) (map to_dirent (sort_entries es))).
   { intros e He. apply in_map. eapply Permutation_in; [apply Permutation_sym; exact HP|exact He]. }
   exists (map to_dirent (sort_entries es)).
-  destruct (find_entry head_tag es) as [h|] eqn:Eh.
+  assert (Hplain : file = (hdr ++ flat) ++ body ->
+            open_sfnt file 0 = Ok (version, map to_dirent (sort_entries es)) /\ length (map to_dirent (sort_entries es)) = length ts /\
+            forall t d, In (t, d) ts -> exists e d', In e (map to_dirent (sort_entries es)) /\ d_tag e = t /\ load_table file e = Ok d' /\ same_but_adjustment t d d').
+  { intros ->. split; [apply Hopen|]. split; [rewrite map_length, (Permutation_length HP); exact Les|].
+    intros t d Hin_ts. apply In_nth_error in Hin_ts. destruct Hin_ts as [i Hi].
+    destruct (nth_error es i) as [e|] eqn:Ee; [|apply nth_error_None in Ee; assert (i < length ts)%nat by (apply nth_error_Some; congruence); lia].
+    destruct (Hsound i e Ee) as [t' [d' [A' [B' [C' [C2' [C3' [C4' [C5' C6']]]]]]]]].
+    assert (Et : t' = t /\ d' = d) by (rewrite Hi in A'; inversion A'; auto). destruct Et as [-> ->]. pose proof (pad4_ge d) as Hpd.
+    exists (to_dirent e), d. split; [apply Hin, (nth_error_In _ _ Ee)|]. split; [exact B'|].
+    split; [|left; reflexivity].
+    rewrite (load_written (hdr ++ flat) body D e Ldir C3') by lia. rewrite C', C4'. reflexivity. }
+  destruct (find_entry head_tag es) as [h|] eqn:Eh; [destruct (e_len h <? 12)%nat eqn:Eshort|].
+  - (* a head table without room for checkSumAdjustment: nothing is patched *)
+    apply Ok_inj in HW. apply Hplain. symmetry. exact HW.
   - (* a head table: checkSumAdjustment is patched in place *)
+    apply Nat.ltb_ge in Eshort.
     set (adj := pack_be 4 ((2981146554 - (sumz (map e_ck es) + calcChecksum (hdr ++ flat)) mod 4294967296) mod 4294967296)) in *.
     inversion HW as [HF]. clear HW.
     unfold find_entry in Eh. apply find_some in Eh. destruct Eh as [Hh Hth]. apply list_Z_eqb_eq in Hth.
     destruct (In_nth_error _ _ Hh) as [k Hk].
     destruct (Hsound k h Hk) as [th [dh [A [B [C [C2 [C3 [C4 [C5 C6]]]]]]]]].
-    assert (Hdh : (12 <= length dh)%nat) by (apply HH; rewrite <- Hth, B; exact (nth_error_In _ _ A)).
+    assert (Hdh : (12 <= length dh)%nat) by (rewrite <- C; exact Eshort).
     pose proof (pad4_ge dh) as Hpg.
     set (q := (e_off h - D + 8)%nat).
     assert (La : length adj = 4%nat) by apply pack_be_length.
@@ -285,15 +298,7 @@ Proof.
     + left. specialize (C6 i e Hgt Ee).
       rewrite (region_after body adj q (e_off e - D) (length d)) by (rewrite ?La; unfold q; lia). exact C4'.
   - (* no head table *)
-    inversion HW as [HF]. clear HW.
-    split; [apply Hopen|]. split; [rewrite map_length, (Permutation_length HP); exact Les|].
-    intros t d Hin_ts. apply In_nth_error in Hin_ts. destruct Hin_ts as [i Hi].
-    destruct (nth_error es i) as [e|] eqn:Ee; [|apply nth_error_None in Ee; assert (i < length ts)%nat by (apply nth_error_Some; congruence); lia].
-    destruct (Hsound i e Ee) as [t' [d' [A' [B' [C' [C2' [C3' [C4' [C5' C6']]]]]]]]].
-    assert (Et : t' = t /\ d' = d) by (rewrite Hi in A'; inversion A'; auto). destruct Et as [-> ->]. pose proof (pad4_ge d) as Hpd.
-    exists (to_dirent e), d. split; [apply Hin, (nth_error_In _ _ Ee)|]. split; [exact B'|].
-    split; [|left; reflexivity].
-    rewrite (load_written (hdr ++ flat) body D e Ldir C3') by lia. rewrite C', C4'. reflexivity.
+    apply Ok_inj in HW. apply Hplain. symmetry. exact HW.
 Qed.
 
 (* non-vacuity: two tables, one of them head; the reader finds both, head differs only in checkSumAdjustment *)
